@@ -226,11 +226,83 @@ def obligations(tier):
             if n == 3 and which not in (None, 'word'):
                 continue
             yield Obligation('C15.xml[n=%d,lexicon=%d,%s=%d]' % (n, nlex, which, alen), 'h_xml', dict(n=n, nlex=nlex, which=which, alen=alen), cost=n * n * 4)
-        for which, alen in ((None, 0), ('word', 1), ('base', 2), ('word', 2)):
+        for which, alen in ((None, 0), ('word', 1), ('base', 1), ('base', 2), ('word', 2)):
             for nbest in (1, 2):
-                if (n == 3 and (which not in (None,) or nbest == 2)) or (nbest == 2 and which == 'base'):
+                if (n == 3 and (which not in (None,) or nbest == 2)) or (nbest == 2 and which == 'base' and alen == 2):
                     continue
                 yield Obligation('C15.jigg[n=%d,lexicon=%d,%s=%d,nbest=%d]' % (n, min(nlex, 8), which, alen, nbest), 'h_jigg',
                                  dict(n=n, nlex=min(nlex, 8), which=which, alen=alen, nbest=nbest), cost=n * n * 6)
     for n in ((1, 2, 3) if q else (1, 2, 3, 4)):
         yield Obligation('C15.normalize[len=%d]' % n, 'h_normalize', dict(n=n), cost=n * 3)
+
+
+def normalizer_encoding():
+    """Engine Z: normalize_token read from its AST as a chain of per-character rewrites; z3 decides, for a token character c of any
+    code point, whether some forbidden character survives.  The encoding is valid when every rule is a single-character (or
+    whole-token anchored) literal rule whose replacement contains no character matched by a later rule - checked here too."""
+    import ast
+    import os
+    import re as _re
+    import z3
+    import re._parser as sp
+    import re._constants as sc
+    from engines.pysym import hook
+    src = open(os.path.join(hook.REPO, 'depccg', 'semantics', 'ccg2lambda', 'normalization.py'), encoding='utf-8').read()
+    fn = [n for n in ast.walk(ast.parse(src)) if isinstance(n, ast.FunctionDef) and n.name == 'normalize_token']
+    if not fn:
+        return dict(applicable=False, reason='normalize_token not found'), []
+    rules, prefix_guard = [], False
+    for st in ast.walk(fn[0]):
+        if isinstance(st, ast.Call) and isinstance(st.func, ast.Attribute) and st.func.attr == 'sub' and len(st.args) == 3 \
+                and all(isinstance(a, ast.Constant) for a in st.args[:2]):
+            rules.append((st.lineno, st.args[0].value, st.args[1].value))
+        if isinstance(st, ast.If) and 'startswith' in ast.dump(st.test) and "'_'" in ast.dump(st.test).replace('"', "'"):
+            prefix_guard = True
+    rules.sort()
+    per_char = []      # (code point, replacement) in order; anchored whole-token rules are kept apart
+    for _, pat, rep in rules:
+        ops = list(sp.parse(pat))
+        kinds = [o for o, _ in ops]
+        if kinds == [sc.LITERAL]:
+            per_char.append((ops[0][1], rep))
+        elif kinds == [sc.AT, sc.LITERAL, sc.AT]:
+            continue       # whole-token rule: only rewrites the one-character token; the per-character rule for that character still decides
+        else:
+            return dict(applicable=False, reason='rule %r is not a single-character literal rule' % pat), []
+    forbidden = [ord(ch) for ch in '.,()!-']
+    handled = [c for c, _ in per_char]
+    # replacements must be inert for later rules and free of forbidden characters
+    for i, (c, rep) in enumerate(per_char):
+        for c2, _ in per_char[i + 1:]:
+            if chr(c2) in rep:
+                return dict(applicable=False, reason='replacement %r is rewritten by a later rule' % rep), []
+    bad = []
+    for c, rep in per_char:
+        for ch in rep:
+            if ord(ch) in forbidden:
+                bad.append(('normalize.z3.replacement-contains-logic-punctuation', dict(char=chr(c), replacement=rep)))
+    v = z3.Int('c')
+    s = z3.Solver()
+    s.add(v >= 0, v <= 0x10FFFF, z3.Or(*[v == f for f in forbidden]), *[v != h for h in handled])
+    r = s.check()
+    info = dict(applicable=True, rules=len(rules), per_character_rules=len(per_char), query='exists c: forbidden(c) and no rule rewrites c', result=str(r))
+    if r == z3.sat:
+        c = s.model().eval(v, True).as_long()
+        bad.append(('normalize.z3.logic-punctuation-survives', dict(token='a' + chr(c))))
+    if not prefix_guard:
+        bad.append(('normalize.z3.no-underscore-prefix-step', dict(token='a')))
+    # replay every counterexample on the real function
+    real = []
+    if bad:
+        from depccg.semantics.ccg2lambda.normalization import normalize_token
+        for kind, m in bad:
+            tok = m.get('token') or m.get('char')
+            out = normalize_token(tok)
+            if (not out.startswith('_')) or any(ch in out for ch in '.,()!-'):
+                real.append((kind, dict(token=tok, output=out)))
+    return info, real
+
+
+def ground_stage():
+    info, bad = normalizer_encoding()
+    return dict(normalizer_z3=info), bad
